@@ -1,11 +1,11 @@
 #!/usr/bin/env python3
-"""Round 4 (per-package agents): confirm and keep /tmp/wt4/<pkg>/mutants/mN as /verif/seeded/<pkg>-r4-mN."""
+"""Per-package agent rounds (WT=/tmp/wtN ROUND=rN): confirm and keep $WT/<pkg>/mutants/mN as /verif/seeded/<pkg>-$ROUND-mN."""
 import json, os, re, shutil, subprocess, glob, concurrent.futures as cf
-DEF = {"qr": ["C01", "C10"], "datamatrix": ["C02", "C10"], "aztec": ["C03", "C13"], "pdf417": ["C04", "C10"], "code128": ["C05", "C10"], "code39": ["C07", "C10"],
-       "code93": ["C07", "C10"], "codabar": ["C08", "C10"], "ean": ["C06", "C10"], "twooffive": ["C08", "C10"], "utils-bits": ["C18", "C11"], "utils-gf": ["C17", "C16"], "root-scale": ["C09"]}
+DEF = {"qr": ["C01", "C10", "C15"], "datamatrix": ["C02", "C10"], "aztec": ["C03", "C13"], "pdf417": ["C04", "C10"], "code128": ["C05", "C10", "C14"], "code39": ["C07", "C10"],
+       "code93": ["C07", "C10"], "codabar": ["C08", "C10"], "ean": ["C06", "C10"], "twooffive": ["C08", "C10"], "utils-bits": ["C18", "C11", "C14"], "utils-gf": ["C17", "C16"], "root-scale": ["C09", "C11"], "code39-93": ["C07", "C10"], "codabar-2of5": ["C08", "C10"]}
 def one(path):
     pkg = path.split("/")[3]
-    name = "%s-r4-%s" % (pkg, os.path.basename(path))
+    name = "%s-%s-%s" % (pkg, os.environ.get("ROUND", "r4"), os.path.basename(path))
     notes = open(os.path.join(path, "notes.md")).read()
     m = re.search(r"C\d\d", notes[:200])
     prop = m.group(0) if m else DEF[pkg][0]
@@ -34,7 +34,7 @@ def one(path):
                 "caught_by": {p: c for p, c in checks.items() if c["exit"] == 1}, "not_caught_by": [p for p, c in checks.items() if c["exit"] != 1]}
         json.dump(meta, open(os.path.join(d, "meta.json"), "w"), indent=1)
     return name, ok, checks, out
-paths = sorted(glob.glob("/tmp/wt4/*/mutants/m*"))
+paths = sorted(glob.glob(os.environ.get("WT", "/tmp/wt4") + "/*/mutants/m*"))
 with cf.ThreadPoolExecutor(max_workers=3) as ex:
     for name, ok, checks, out in ex.map(one, paths):
         caught = [p for p, c in checks.items() if c["exit"] == 1]
